@@ -115,7 +115,7 @@ Init ==
   /\ lastIdx = 0 /\ lastTerm = 0 /\ commit = 0
   /\ phase = "write" /\ cutp = FALSE /\ lastcut = FALSE
   /\ ops = <<>>
-  /\ crash1 = [lost |-> {}, soff |-> 0, tail |-> 0]
+  /\ crash1 = [lost |-> {}, soff |-> 0, tail |-> 0, tsize |-> 0]
   /\ rec1 = [ok |-> FALSE]
   /\ app = <<>>
   /\ crash2 = [lost |-> {}]
@@ -229,15 +229,19 @@ RidsOfSeg(s, upto) == SelectSeq([i \in 1..upto |-> i], LAMBDA i : log[i].seg = s
 \* TLC keeps [x \in S |-> e] lazy and re-evaluates e at every application; concatenation forces a tuple
 Strict(f) == f \o <<>>
 
-SegImg1(s, lost, soff) ==
+SegImg1(s, lost, soff, tsize) ==
   LET w == CatWords(RidsOfSeg(s, flushed), 1, IF s = TailSeg THEN lost ELSE {}, soff)
-      size == IF s = TailSeg THEN Max(fsize[s], IF flushed = Len(log) THEN woff ELSE foff) ELSE fsize[s]
+      size == IF s = TailSeg THEN tsize ELSE fsize[s]
   IN w \o Zeros(size - Len(w))
 
+\* size of the tail file once the pending flush (if any) has reached the OS
+TailSizeNow == Max(fsize[TailSeg], IF flushed = Len(log) THEN woff ELSE foff)
+
 \* image after the first crash: file s as a word array (1-based TLA sequence; file offset x is element x+1)
-RECURSIVE Img1Upto(_, _, _)
-Img1Upto(n, lost, soff) == IF n = 0 THEN <<>> ELSE Append(Img1Upto(n - 1, lost, soff), SegImg1(n, lost, soff))
-Img1(lost, soff) == Img1Upto(TailSeg, lost, soff)
+RECURSIVE Img1Upto(_, _, _, _)
+Img1Upto(n, lost, soff, tsize) ==
+  IF n = 0 THEN <<>> ELSE Append(Img1Upto(n - 1, lost, soff, tsize), SegImg1(n, lost, soff, tsize))
+Img1(lost, soff, tsize) == Img1Upto(TailSeg, lost, soff, tsize)
 
 ---------------------------------------------------------------------------
 (* Reader (decoder.go)                                                     *)
@@ -341,15 +345,15 @@ Summary(r) == [ok |-> r.ok, first |-> r.first, rep |-> r.rep, acc |-> r.res.acc,
 Crash1(lost) ==
   /\ \/ phase = "syncing"
      \/ phase = "write" /\ lost = {} /\ Len(ops) >= 1 /\ (flushed < Len(log) \/ lastcut)
-  /\ LET r == Recover(Img1(lost, foff))
+  /\ LET r == Recover(Img1(lost, foff, TailSizeNow))
      IN /\ rec1' = Summary(r)
         /\ phase' = (IF r.ok THEN "opened" ELSE "failed")
-  /\ crash1' = [lost |-> lost, soff |-> foff, tail |-> TailSeg]
+  /\ crash1' = [lost |-> lost, soff |-> foff, tail |-> TailSeg, tsize |-> TailSizeNow]
   /\ UNCHANGED <<log, flushed, durable, fsize, foff, woff, chain, wstate, lastIdx, lastTerm, commit,
                  cutp, lastcut, ops, app, crash2, rec2>>
 
 \* image after the first recovery (recomputed; Recover is deterministic)
-ImgR1 == Recover(Img1(crash1.lost, crash1.soff)).im
+ImgR1 == Recover(Img1(crash1.lost, crash1.soff, crash1.tsize)).im
 
 HsVal(rid) == IF rid = 0 THEN EmptyHS ELSE <<log[rid].term, log[rid].vote, log[rid].commit>>
 
